@@ -2,6 +2,7 @@ package rel
 
 import (
 	"fmt"
+	"runtime"
 	"strings"
 
 	age "github.com/craterdog/go-collection-framework/v4/agent"
@@ -109,11 +110,13 @@ func (s *CountingSeq) AsArray() []any {
 func expectDepthPanic(what string, f func()) string {
 	var msg string
 	panicked := false
+	isRuntimeError := false
 	func() {
 		defer func() {
 			if e := recover(); e != nil {
 				panicked = true
 				msg = fmt.Sprint(e)
+				_, isRuntimeError = e.(runtime.Error)
 			}
 		}()
 		f()
@@ -121,8 +124,8 @@ func expectDepthPanic(what string, f func()) string {
 	if !panicked {
 		return what + " returned normally on a self-containing value"
 	}
-	if !strings.Contains(msg, depthMessage) {
-		return what + " panicked with something other than the depth-limit message: " + trunc(msg)
+	if !strings.Contains(strings.ToLower(msg), "depth") || isRuntimeError {
+		return what + " panicked with something other than a depth-limit message: " + trunc(msg)
 	}
 	return ""
 }
